@@ -599,7 +599,13 @@ func (r *primaryObjectsRetriever) collectDocs(numDocs int) ([]core.Doc, error) {
 func (r *primaryObjectsRetriever) retrievePrimaryDocs() ([]core.Doc, error) {
 	r.primaryScan.addField(r.relIDFieldDef)
 
-	r.primaryScan.filter = addFilterOnIDField(r.filter, r.primarySide.relIDFieldMapIndex.Value(),
+	baseFilter := r.filter
+	if r.primarySide.isParent {
+		// the parent's own conditions were moved into its scan filter when the join was built,
+		// r.filter is the filter of the child side.
+		baseFilter = r.primaryScan.filter
+	}
+	r.primaryScan.filter = addFilterOnIDField(baseFilter, r.primarySide.relIDFieldMapIndex.Value(),
 		r.targetSecondaryDoc.GetID())
 
 	oldFetcher := r.primaryScan.fetcher
